@@ -256,8 +256,21 @@ def _replay_sigs(mod, case):
     return [sig for sig, _ in mod.replay(case)]
 
 
+def _quiet_hub():
+    if os.environ.get('VERIF_DEBUG'):
+        return
+    try:
+        import gevent
+        gevent.get_hub().exception_stream = None      # greenlets dying inside slimta are expected in replays
+        import logging
+        logging.disable(logging.CRITICAL)
+    except Exception:
+        pass
+
+
 def run_check(pid, tier, seed, jobs):
     t0 = time.time()
+    _quiet_hub()
     mod = importlib.import_module('vf.props.' + pid.lower())
     known, fixed = load_known(pid)
     nshards = max(1, jobs)
@@ -391,13 +404,16 @@ def run_check(pid, tier, seed, jobs):
           '%d violation signature(s), %.1fs'
           % (pid, tier, seed, evaluations, len(nontrivial),
              sum(excluded.values()), len(failures), wall))
+    if failures:
+        return 1
     if evaluations == 0 or len(nontrivial) < 2:
         sys.stderr.write('HARNESS ERROR: vacuous run\n')
         return 2
-    return 1 if failures else 0
+    return 0
 
 
 def run_replay(path):
+    _quiet_hub()
     with open(path) as f:
         data = json.load(f)
     pid = data['property']
